@@ -29,7 +29,11 @@ def _extra(core, top, mon, kw, ncmd=None):
         top.comb += a.eq(tot + nacc <= ncmd)
         kw["assumes"]["at_most_%d_commands_in_the_window" % ncmd] = a
     align = core.controller.interface.address_align
-    om = monitors.TrackMonitor(core.ports, core.dfi, mon, gs.colbits, gs.bankbits, align,
+    # monitor counters must hold everything the core can have outstanding: per bank the command FIFO, its output stage, the
+    # look-ahead entry and one command in flight, for all banks, plus the data pipelines
+    cs_ = core.ctrl_settings
+    cap = (2 ** gs.bankbits) * (cs_.cmd_buffer_depth + 3 + (1 if cs_.cmd_buffer_buffered else 0)) + ps.read_latency + ps.write_latency + 4
+    om = monitors.TrackMonitor(core.ports, core.dfi, mon, gs.colbits, gs.bankbits, align, cw=max(4, bits_for(cap + 2)),
                                write_latency=ps.write_latency, read_latency=ps.read_latency,
                                bank_byte_alignment=getattr(core.ctrl_settings, "bank_byte_alignment", 0))
     top.submodules.om = om
@@ -86,5 +90,5 @@ def run(ctx):
         if ctx.tier == "quick" and "q" in tiers:
             ctx.add(n, kq, timeout=900, min_K=kq - 2, first_chunk=11, chunk=1, cover_required=False)
         elif ctx.tier == "thorough":
-            ctx.add(n, kt, timeout=3300, min_K=(kq or 15) - 1, first_chunk=11, chunk=1, cover_required=False)
+            ctx.add(n, kt, timeout=3300, min_K=(kq - 1) if kq else 12, first_chunk=11, chunk=1, cover_required=False)
     ctx.run()
